@@ -424,6 +424,22 @@ VARIANTS = [
     {"name": "P R5 filter verdict kept in a local after retaining the entry", "file": LOGR, "expect": "silent",
      "old": "            self._raw_entries.append(entry)\n            if self.filter.match(entry):",
      "new": "            self._raw_entries.append(entry)\n            visible = self.filter.match(entry)\n            if visible:"},
+    # ---- round 5 mechanisms
+    {"name": "R10 LLUDP entries compare by message content", "file": LOGR, "expect": "C18.R10",
+     "old": "    _MESSAGE_META_ATTRS = {",
+     "new": "    def __eq__(self, other):\n        return isinstance(other, LLUDPMessageLogEntry) and self.message == other.message\n\n"
+            "    __hash__ = object.__hash__\n\n    _MESSAGE_META_ATTRS = {"},
+    {"name": "P R10 entries get an explicit identity __eq__ and a repr", "file": LOGR, "expect": "silent",
+     "old": "    _MESSAGE_META_ATTRS = {",
+     "new": "    def __eq__(self, other):\n        return self is other\n\n    __hash__ = object.__hash__\n\n"
+            "    def __repr__(self):\n        return f'<LLUDP {self.name}>'\n\n    _MESSAGE_META_ATTRS = {"},
+    {"name": "R9 Block.__setitem__ only coerces IntEnum members", "file": MSG, "expect": "C18.R9",
+     "old": "if isinstance(value, (enum.IntEnum, enum.IntFlag)):", "new": "if isinstance(value, enum.IntEnum):"},
+    {"name": "R9 Block.__setitem__ whitelist names the repo's own enum bases", "file": MSG, "expect": "C18.R9",
+     "old": "if isinstance(value, (enum.IntEnum, enum.IntFlag)):", "new": "if isinstance(value, (IntEnum, IntFlag)):"},
+    {"name": "P R9 whitelist spelled as two isinstance tests", "file": MSG, "expect": "silent",
+     "old": "if isinstance(value, (enum.IntEnum, enum.IntFlag)):",
+     "new": "if isinstance(value, enum.IntEnum) or isinstance(value, enum.IntFlag):"},
     # ---- documented limits
     {"name": "X bare selector matches on the raw value instead of truthiness", "file": LOGR, "expect": "miss",
      "old": "                return bool(val)\n", "new": "                return val is not None\n"},
